@@ -667,7 +667,7 @@ func drawRestStep(t *rapid.T) restStep {
 			sk = 10
 		}
 		n := rapid.Uint64Range(sk+3, 1<<28).Draw(t, "step")
-		if rapid.IntRange(0, 5).Draw(t, "cornerQ") == 0 {
+		if rapid.IntRange(0, 2).Draw(t, "cornerQ") == 0 {
 			// the window reaches below step 0, and / or an astronomically long period (window arithmetic in the time domain overflows)
 			n = rapid.Uint64Range(0, sk+2).Draw(t, "stepLow")
 			if rapid.Bool().Draw(t, "hugePeriod") {
